@@ -787,7 +787,7 @@ impl Check for SsPoolHistory {
                 }
                 Op::WithdrawDirect { user, denom, amount } => {
                     let usr = pw.user(*user);
-                    let d = ["uaaa", "ubbb", "uccc"][(*denom % 3) as usize];
+                    let d = ["uaaa", "uaaab", "uccc"][(*denom % 3) as usize];
                     let b = [pw.w.bal(&pw.infos[0], &usr), pw.w.bal(&pw.infos[1], &usr)];
                     let lp_b = pw.lp_balance(&usr);
                     if pw.withdraw_direct(&usr, d, amount.u128()).is_ok() {
